@@ -49,6 +49,22 @@ type Case struct {
 	Defs []gen.Def `json:"defs,omitempty"`
 }
 
+// withoutDeclaredRPC returns a copy of d in which methods whose only call type option is rpc carry none.
+func withoutDeclaredRPC(d gen.Def) gen.Def {
+	var c gen.Def
+	b, _ := json.Marshal(d)
+	_ = json.Unmarshal(b, &c)
+	for si := range c.File.Services {
+		for mi := range c.File.Services[si].Methods {
+			m := &c.File.Services[si].Methods[mi]
+			if m.RPC && len(gen.CallTypesOf(*m)) == 1 {
+				m.RPC = false
+			}
+		}
+	}
+	return c
+}
+
 const staticTemplate = "cmd/protoc-gen-gorums/gengorums/template_static.go"
 
 // ---------------------------------------------------------------- part 1
@@ -356,7 +372,9 @@ func runPart2(c Case) vt.Verdict {
 		d.Param = "" // the stubs are what matters here; parameters are C16's business
 		pkg := fmt.Sprintf("p%d", i)
 		items[i].pkg = pkg
-		a := gen.Analyze(d)
+		// a method that declares the rpc call type (option (gorums.rpc) = true, an extension of
+		// gorums.proto that the documentation never shows) is judged like one that implies it
+		a := gen.Analyze(withoutDeclaredRPC(d))
 		if a.Label != "legal" || a.Methods == 0 || a.Invalid != "" {
 			items[i].skipped = "not a documented-legal definition with methods"
 			classes = append(classes, "part2:skipped-not-legal")
@@ -369,7 +387,7 @@ func runPart2(c Case) vt.Verdict {
 			classes = append(classes, "part2:skipped-not-accepted")
 			continue
 		}
-		src, plan, err := gen.DriverSource(d, pkg)
+		src, plan, err := gen.DriverSource(withoutDeclaredRPC(d), pkg)
 		if err != nil {
 			return harness(err)
 		}
